@@ -8,6 +8,7 @@
 #include <span>
 #include <sstream>
 #include <string>
+#include <string_view>
 #include <system_error>
 #include <vector>
 
@@ -148,22 +149,48 @@ bool recv_exact(NativeSocket socket,
     return true;
 }
 
+// Reverses the daemon's escaping of field values: backslash-backslash is a backslash,
+// backslash-r a carriage return.
+std::string decode_field_value(std::string_view encoded) {
+    std::string value;
+    value.reserve(encoded.size());
+    for (std::size_t i = 0; i < encoded.size(); ++i) {
+        if (encoded[i] == '\\' && i + 1 < encoded.size() && (encoded[i + 1] == '\\' || encoded[i + 1] == 'r')) {
+            value.push_back(encoded[i + 1] == 'r' ? '\r' : '\\');
+            ++i;
+        } else {
+            value.push_back(encoded[i]);
+        }
+    }
+    return value;
+}
+
 ControlResponse parse_response(NativeSocket socket, const ControlTransferProgress* progress) {
     ControlResponse response{};
     std::string line;
     bool status_seen = false;
     std::optional<std::size_t> payload_length;
+    std::string* continued_value = nullptr;
 
     while (recv_line(socket, line)) {
         if (line.empty()) {
             break;
         }
+        if (line.front() == '\t') {
+            // Continuation line: one more line of the preceding field's value.
+            if (continued_value != nullptr) {
+                continued_value->push_back('\n');
+                continued_value->append(decode_field_value(std::string_view(line).substr(1)));
+            }
+            continue;
+        }
+        continued_value = nullptr;
         const auto pos = line.find(':');
         if (pos == std::string::npos) {
             continue;
         }
         const auto key = to_upper(line.substr(0, pos));
-        const auto value = line.substr(pos + 1);
+        const auto value = decode_field_value(std::string_view(line).substr(pos + 1));
         if (key == "STATUS") {
             status_seen = true;
             response.success = (to_upper(value) == "OK");
@@ -181,7 +208,9 @@ ControlResponse parse_response(NativeSocket socket, const ControlTransferProgres
                 break;
             }
         } else {
-            response.fields[key] = value;
+            auto& slot = response.fields[key];
+            slot = value;
+            continued_value = &slot;
         }
     }
 
